@@ -37,6 +37,7 @@ type lcScenario struct {
 	gwPhase      []time.Duration
 	compInterval time.Duration
 	wipeLocal    bool
+	lexOrder     bool
 	strip        []string
 	originals    map[string]int // sample identity -> 1
 	srcDir       string
@@ -121,12 +122,16 @@ func genLifecycle(x *simkit.Exec, defaults cmdDefaults) (*lcScenario, error) {
 	if x.Bool("threeLevels", 1, 3) {
 		sc.cfg.ranges = []int64{2 * hourMs, 4 * hourMs, 8 * hourMs}
 	}
-	sc.cfg.fetchConc = x.Range("fetchConc", 1, 3)
+	// Fetcher and filter worker pools are fed from Go map iterations: with fewer workers than blocks
+	// the order in which their reads are issued is not a function of the seed. With at least as many
+	// workers as blocks all reads are parked at once and the scheduler decides their order.
+	sc.cfg.fetchConc = 32
 	sc.cfg.blockFilesConc = x.Range("blockFilesConc", 1, 2)
 	sc.cfg.compactFetchConc = x.Range("compactFetchConc", 1, 2)
 	sc.cfg.recursiveLister = x.Bool("recursiveLister", 1, 3)
 	sc.cfg.metaCacheDir = x.Bool("metaCacheDir", 1, 2)
 	sc.wipeLocal = x.Bool("wipeLocal", 1, 3)
+	sc.lexOrder = x.Bool("lexListing", 1, 2)
 	sc.gateways = x.Range("gateways", 1, 2)
 	slack := sc.cfg.deleteDelay - sc.ignoreDelay
 	maxSkew := sc.ignoreDelay / 10
@@ -220,6 +225,7 @@ func (sc *lcScenario) execute(x *simkit.Exec, salt string, o lcOpts) lcResult {
 		s.StepLatency = time.Millisecond
 		s.MaxSteps = 60000
 		bkt := simbucket.New("bucket")
+		bkt.LexOrder = sc.lexOrder
 		ctx, cancel := context.WithCancel(context.Background())
 		defer cancel()
 		for _, sp := range sc.blocks {
@@ -227,6 +233,10 @@ func (sc *lcScenario) execute(x *simkit.Exec, salt string, o lcOpts) lcResult {
 				x.Troublef("upload fixture: %v", err)
 				return
 			}
+		}
+		// canonical names of the fixture blocks are fixed before anything runs concurrently
+		for _, sp := range sc.blocks {
+			bkt.Canon(sp.ID.String())
 		}
 		bkt.Attach(s)
 		contents := newBlockContents(bkt, filepath.Join(x.TempDir(), "rd-"+salt), sc.strip)
@@ -238,7 +248,7 @@ func (sc *lcScenario) execute(x *simkit.Exec, salt string, o lcOpts) lcResult {
 		var gws []*gatewayView
 		for g := 0; g < sc.gateways; g++ {
 			h := bkt.Handle(fmt.Sprintf("gw%d", g+1))
-			gv, err := newGatewayView(h.Actor, h, "", sc.ignoreDelay+sc.gwSkew[g], sc.gwConsist, 2, sc.cfg.defs)
+			gv, err := newGatewayView(h.Actor, h, "", sc.ignoreDelay+sc.gwSkew[g], sc.gwConsist, 32, sc.cfg.defs)
 			if err != nil {
 				x.Troublef("gateway: %v", err)
 				return
